@@ -51,7 +51,7 @@ type kexDesc struct {
 	Mode    string `json:"mode"`    // lib-lib | ref-device | ref-owner
 	Restore int    `json:"restore"` // bitmask: 1 owner after Parameter, 2 owner after SetParameter, 4 device after Parameter
 	Blank   string `json:"blank"`   // cipher of the blank session restored into: same | a128gcm (as sqlite.DB.XSession does)
-	LeadZ   string `json:"leadz"`   // "" | pub (reference peer's public value has a leading zero byte, sent stripped) | pubfull (sent full width) | secret (shared secret has a leading zero byte)
+	LeadZ   string `json:"leadz"`   // "" | pub (reference peer's public value has a leading zero byte, sent stripped) | pub2 (ECDH: both coordinates have one, both sent stripped) | pubfull (sent full width) | secret (shared secret has a leading zero byte)
 	Invalid string `json:"invalid"` // "" or the kind of invalid peer parameter
 	Side    string `json:"side"`    // which library side receives the invalid parameter: owner | device
 }
@@ -104,6 +104,12 @@ type refPeer struct {
 	oaep   []byte
 }
 
+// private keys whose public point has a leading zero byte in BOTH coordinates
+var bothZero = map[string][]string{
+	string(kex.ECDH256Suite): {"ebd5c90c5a9070d2a26b8eedd0c0804b1e0103439feaf798fdf37ce2e6832ddc", "a7df124aecee66d53d557026cabfcde62371244d1f54a98743a47b81ca6f9c66"},
+	string(kex.ECDH384Suite): {"b08109308da77280f22786e5836ebd6c9c19fbf58cdc6977f6755ece5c55b48233b4a312e73feaf7313d219725d5a9cf", "8850231b9aa1a7dade7b3e03a55d4ee921141c8e9f0961739ff1733c128213118633860441977b32d906aef6ba6f20f0"},
+}
+
 func curveOf(suite kex.Suite) (ecdh.Curve, int) {
 	if suite == kex.ECDH256Suite {
 		return ecdh.P256(), 16
@@ -125,21 +131,29 @@ func (p *refPeer) param(leadz string, ownerPub *rsa.PublicKey, asDevice bool) []
 	switch p.suite {
 	case kex.ECDH256Suite, kex.ECDH384Suite:
 		curve, rl := curveOf(p.suite)
-		for {
+		for n := 0; ; n++ {
 			k, err := curve.GenerateKey(rand.Reader)
 			if err != nil {
 				panic(err)
 			}
+			if leadz == "pub2" {
+				// both coordinates start with a zero byte (found by search, 1 in 65536 keys)
+				ks := bothZero[string(p.suite)]
+				kb, _ := hex.DecodeString(ks[n%len(ks)])
+				if k, err = curve.NewPrivateKey(kb); err != nil {
+					panic(err)
+				}
+			}
 			pub := k.PublicKey().Bytes()
 			size := (len(pub) - 1) / 2
 			x, y := pub[1:1+size], pub[1+size:]
-			if leadz != "" && x[0] != 0 && y[0] != 0 {
-				continue
+			if leadz != "" && leadz != "pub2" && (x[0] == 0) == (y[0] == 0) {
+				continue // exactly one coordinate with a leading zero byte (both: variant pub2)
 			}
 			p.ec = k
 			p.ecRand = make([]byte, rl)
 			rand.Read(p.ecRand)
-			if leadz == "pub" { // minimal-length integers
+			if leadz == "pub" || leadz == "pub2" { // minimal-length integers
 				x, y = new(big.Int).SetBytes(x).Bytes(), new(big.Int).SetBytes(y).Bytes()
 			}
 			return refverify.ECDHParam{X: x, Y: y, Rand: p.ecRand}.Encode()
@@ -646,6 +660,9 @@ func genKex(t *rapid.T) kexDesc {
 	fam := familyOf(kex.Suite(d.Suite))
 	if d.Mode != "lib-lib" && fam != "oaep" && rapid.IntRange(0, 2).Draw(t, "lz") == 0 {
 		opts := []string{"pub", "pubfull"}
+		if fam == "ecdh" {
+			opts = append(opts, "pub2", "pub2")
+		}
 		if fam == "dh" && d.Mode == "ref-device" && d.Suite == string(kex.DHKEXid14Suite) {
 			opts = append(opts, "secret")
 		}
